@@ -197,3 +197,30 @@ def run_json_narrowing(ctx, prog, rid, entries, follow, what='receive path'):
                    '%s.get<%s>() narrows a 64-bit JSON number without a range test: an id such as 4294967297 is taken for 1 and matched to the wrong pending request' % (obj, ct),
                    where=f.loc(st['i']))
     ctx.ob(rid, 'scan', True, '%d functions on the %s scanned, %d narrow integer reads' % (len(seen), what, n))
+
+
+def run_threshold(ctx, prog, rid, file_pred, what, floor=1):
+    """A4 segmentation independence at the transport boundary: a resumable parser consumes what it understood and leaves the rest in the buffer, so it must be
+    offered every remainder however short — the receive threshold it registers with is the constant 0 or 1."""
+    ctx.rule(rid, 'A4 segmentation independence at the transport boundary: the %s is a resumable parser that consumes what it has understood, so whatever is left over '
+             'must be offered again however short it is — the threshold passed to setReceiveCallback folds to 0 or 1 (a larger one leaves a final fragment shorter '
+             'than the threshold undelivered for ever once the earlier part of the message was consumed)' % what, floor=floor)
+    n = 0
+    for f in prog.funcs.values():
+        if not file_pred(f):
+            continue
+        for c in f.calls():
+            if c.get('fn') != 'setReceiveCallback' or len(c.get('args', [])) < 2:
+                continue
+            n += 1
+            a = f.s(c['args'][1])
+            v = a.get('cv') if a else None
+            if v is None:
+                v = q.eval_expr(f, c['args'][1], lambda sx: None)
+            ok = v is not None and v <= 1
+            ctx.ob(rid, '%s|threshold' % f.name, ok, 'receive threshold is %s' % v if ok else
+                   'the parser is registered with a receive threshold of %s: after it has consumed the start of a message, a remaining fragment shorter than that is never '
+                   'delivered — the request/line is parsed when sent in one piece and hangs when the last segment is short' % (v if v is not None else 'a non-constant value'),
+                   where=f.loc(c['i']))
+    if n < floor:
+        raise AnalysisBroken('%s: expected >= %d setReceiveCallback registration(s), found %d' % (rid, floor, n))
